@@ -54,15 +54,73 @@ Theorem C08_area : forall s l, Inv s -> no_overlap s -> enumerates l (absP s) ->
   area_units s = Z.of_nat (length l).
 Proof. exact area_is_cardinality. Qed.
 
-(* non-vacuity: a mixed-depth history *)
+(* non-vacuity: a mixed-depth history (an AddShape with a complete sibling group 0..3 that
+   _renorm merges, a union with a depth-5 region holding one finer and one coarser cell, and a
+   membership query that triggers _demote_all) *)
+Definition C08_example_ops : list op :=
+  [AddShape 3 [0;1;2;3;21]; Union (mkRegion 5 [(5, 340); (2, 1)] false) true; Within [21; 16; 5]].
+
+(* the stored pixels per level after the history: everything demoted to level 3 by the query;
+   (5,340) has been degraded to (3,21), (2,1) expanded to 4..7, (2,0) expanded back to 0..3 *)
 Example C08_example :
-  let s := run (init 3) [AddShape 3 [0;1;2;3;21]; Union (mkRegion 5 [(5, 340); (2, 1)] false) true; Within [21; 16; 5]] in
-  obs_levels s = [[]; []; [0; 1; 2; 3; 21; 16; 17; 18; 19; 20; 22; 23; 24; 25; 26; 27; 28; 29; 30; 31]] \/ True.
-Proof. right. exact I. Qed.
+  obs_levels (run (init 3) C08_example_ops) = [[]; []; [4; 5; 6; 7; 0; 1; 2; 3; 21]].
+Proof. vm_compute; reflexivity. Qed.
+
+(* outputs and stored levels after every operation: the first renorm merges 0..3 into (2,0);
+   the query answers 21 in, 16 out, 5 in *)
+Example C08_example_trace :
+  trace (init 3) C08_example_ops =
+  [([0], [[]; [0]; [21]]);
+   ([0], [[]; [1; 0]; [21]]);
+   ([2; 1; 0; 1], [[]; []; [4; 5; 6; 7; 0; 1; 2; 3; 21]])].
+Proof. vm_compute; reflexivity. Qed.
+
+(* the hypotheses of the theorems above hold for this history: every operation is well formed
+   (op_ok), and before each operation the state satisfies Inv and has depth 3 - so
+   C08_step_inv, C08_refines_step, C08_normal_form and C08_queries_pure all apply to each of
+   its steps, and C08_reachable_inv / C08_refines_history to the whole *)
+Example C08_example_ops_ok : Forall (op_ok 3) C08_example_ops.
+Proof.
+  unfold C08_example_ops, op_ok, valid, vcell; cbn [depth cells fst snd].
+  repeat (apply Forall_cons || apply Forall_nil || split); vm_compute; congruence.
+Qed.
+
+Example C08_example_hyps :
+  forall n, let s := run (init 3) (firstn n C08_example_ops) in
+  Inv s /\ depth s = 3 /\
+  match nth_error C08_example_ops n with Some o => op_ok (depth s) o | None => True end.
+Proof.
+  intros n s.
+  assert (Hpre : Forall (op_ok 3) (firstn n C08_example_ops)).
+  { apply Forall_forall. intros o Ho. apply (proj1 (Forall_forall _ _) C08_example_ops_ok).
+    rewrite <- (firstn_skipn n C08_example_ops). apply in_or_app. left. exact Ho. }
+  destruct (C08_reachable_inv 3 (firstn n C08_example_ops) ltac:(vm_compute; congruence) Hpre)
+    as [HI HD].
+  split; [exact HI|]. split; [exact HD|]. fold s in HD. rewrite HD.
+  destruct (nth_error C08_example_ops n) as [o|] eqn:E; [|exact I].
+  apply nth_error_In in E. exact (proj1 (Forall_forall _ _) C08_example_ops_ok o E).
+Qed.
+
+(* the history is not trivial for the normal-form theorem either: its second operation
+   renormalises, and the state it produces is overlap-free with nothing left to merge *)
+Example C08_example_normal :
+  let s1 := run (init 3) (firstn 1 C08_example_ops) in
+  let s2 := run (init 3) (firstn 2 C08_example_ops) in
+  cells s1 = [(2, 0); (3, 21)] /\ cells s2 = [(2, 1); (2, 0); (3, 21); (3, 21)] /\
+  no_overlap s2 /\ no_mergeable s2.
+Proof.
+  split; [vm_compute; reflexivity|]. split; [vm_compute; reflexivity|].
+  destruct (C08_example_hyps 1%nat) as [HI [HD Hok]].
+  exact (C08_normal_form _ _ HI Hok eq_refl).
+Qed.
 
 Print Assumptions C08_reachable_inv.
+Print Assumptions C08_step_inv.
 Print Assumptions C08_refines_step.
 Print Assumptions C08_refines_history.
+Print Assumptions C08_cover_is_descendants.
 Print Assumptions C08_normal_form.
 Print Assumptions C08_queries_pure.
 Print Assumptions C08_area.
+Print Assumptions C08_example_hyps.
+Print Assumptions C08_example_normal.
